@@ -96,6 +96,9 @@ package base
 //@   ensures [ok=>request-valid] err == nil ==> RequestOK(req)
 //@   ensures [err=>no-bytes] err != nil ==> len(result) == 0
 //@   ensures [ok=>stored] err == nil ==> len(result) > 0 && e.Raw == result && signature.Encodes(e.Raw, signature.EnvState(e.Envelope))
+// stmt C02/C03 (signing side): an envelope is produced only if the content it now holds names a non-empty chain whose leaf
+// key dictates the declared algorithm (the chain's validity at the signing time is the anchored assertion below)
+//@   ensures [ok=>algorithm-matches-leaf] err == nil ==> (exists c *signature.EnvelopeContent :: c != nil && signature.ContentOf(signature.EnvState(e.Envelope), c) && len(c.SignerInfo.CertificateChain) > 0 && AlgMatchesLeaf(c.SignerInfo.CertificateChain[0], c.SignerInfo.SignatureAlgorithm))
 //@   ensures [inv] Inv(e)
 //@   ensures [err=>previous-or-none] err != nil ==> (len(e.Raw) == 0 || (e.Raw == old(e.Raw) && signature.EnvState(e.Envelope) == old(signature.EnvState(e.Envelope))))
 //@   assert before call base.validateCertificateChain#0: [chain-at-signing-time] arg0 == content.SignerInfo.CertificateChain && arg2 == content.SignerInfo.SignatureAlgorithm && *arg1 == content.SignerInfo.SignedAttributes.SigningTime
